@@ -9,6 +9,7 @@
 import YkProofs.Reserve
 import YkProofs.Core2Swap
 import YkProofs.Core2Example
+import YkProofs.Core2LifeEx
 namespace Yk.C06
 open Yk Yk.Res Yk.Core
 
@@ -86,5 +87,83 @@ theorem swap_books_refuted_without_node :
 example : SwapOK Example.s6 "app" "p1" ∧ (Example.s7.nodes.map (·.allocated)) = [[("cpu", 2)]] ∧
     (Example.s7.queues.map (·.allocated)) = [[("cpu", 2)], [("cpu", 2)]] :=
   ⟨swapOK_of_b (by decide +kernel), Example.s7_node, Example.s7_queues⟩
+
+/-! ### the placeholder timeout (application.go timeoutPlaceholderProcessing, model `Core.phTimeout`)
+
+The gang style is not part of the dumped state; `phTimeoutOf hard s app` is `phTimeout` with the event the code raises
+(FailApplication for Hard, ResumeApplication for Soft; an event that is not valid in the current state changes nothing).
+The stepped model does not carry the messages to the shim: that the released placeholders are announced (TIMEOUT) is
+checked on the real core by the protocol monitor (C04), not here. -/
+
+/-- The timeout fires before the application runs (New / Accepted): a Hard application fails, a Soft one resumes. -/
+theorem timeout_hard_fails_soft_resumes (s : Core) (app : String) (a : CApp) (hfind : s.findApp app = some a)
+    (hst : a.state = "Accepted" ∨ a.state = "New") :
+    (∃ a', (phTimeoutOf true s app).findApp app = some a' ∧ a'.state = "Failing") ∧
+    (∃ a', (phTimeoutOf false s app).findApp app = some a' ∧ a'.state = "Resuming") :=
+  ⟨phTimeoutOf_hard s app a hfind hst, phTimeoutOf_soft s app a hfind hst⟩
+
+/-- … and when the last placeholder of the failing / resuming application is gone it is Failed (and leaves the partition)
+    resp. Accepted again (normal scheduling). -/
+theorem last_placeholder_gone (tt : TermType) (key : String) (i : CItem) (a : CApp) (hph : i.ph = true)
+    (hz : isZero (some (relAppT tt key i a).allocatedPh) = true) :
+    (a.state = "Failing" → (relAppT tt key i a).state = "Failed" ∧ (relAppT tt key i a).live = false) ∧
+    (a.state = "Resuming" → (relAppT tt key i a).state = "Accepted" ∧ (relAppT tt key i a).live = true) :=
+  ⟨fun h => relAppT_failing_last tt key i a hph h hz, fun h => relAppT_resuming_last tt key i a hph h hz⟩
+
+/-- A Running / Completing application that still holds placeholders keeps its state and its asks; every bound placeholder
+    that is not being preempted is marked released. -/
+theorem timeout_running_keeps_state (hard : Bool) (s : Core) (app : String) (a : CApp) (hfind : s.findApp app = some a)
+    (hst : a.state = "Running" ∨ a.state = "Completing") (hph : isZero (some a.allocatedPh) = false) :
+    ∃ a', (phTimeoutOf hard s app).findApp app = some a' ∧ a'.state = a.state ∧ a'.pending = a.pending ∧
+      ∀ i ∈ a'.items, i.bound = true → i.ph = true → i.preempted = false → i.released = true :=
+  let ⟨a', h1, h2, h3, _, h5⟩ := phTimeoutOf_case1 hard s app a hfind hst hph; ⟨a', h1, h2, h3, h5⟩
+
+/-- In every other case every placeholder ask (every ask) is released: afterwards the application lists bound items
+    only, its pending total is empty, every queue on its chain gives the pending total back, and every bound allocation
+    (every placeholder) that is not being preempted is marked released. -/
+theorem timeout_releases_asks_and_placeholders (hard : Bool) (s : Core) (app : String) (a : CApp) (hw : CoreWF s) (hb : Books s)
+    (hfind : s.findApp app = some a) (hc : LifeE.phCase1 a = false) (hreq : a.items.any (·.inReq) = true) :
+    (∃ a', (phTimeoutOf hard s app).findApp app = some a' ∧
+      (∀ i ∈ a'.items, i.bound = true ∧ i.inReq = false ∧ i.outstanding = false) ∧ a'.pending = []) ∧
+    (∃ a', (phTimeoutOf hard s app).findApp app = some a' ∧
+      ∀ i ∈ a'.items, i.bound = true → i.preempted = false → i.released = true) ∧
+    (∃ F : CQueue → CQueue, (phTimeoutOf hard s app).queues = s.queues.map F ∧ ∀ q ∈ s.queues,
+      (F q).path = q.path ∧ (F q).allocated = q.allocated ∧
+      (under a.queue q.path = true → ∀ k, (F q).pending.getD k = q.pending.getD k - a.pending.getD k) ∧
+      (under a.queue q.path = false → (F q).pending = q.pending)) :=
+  ⟨phTimeoutOf_case2_asks hard s app a hfind hc hreq,
+   let ⟨a', h1, h2, _⟩ := phTimeoutOf_released hard s app a hfind; ⟨a', h1, h2 hc⟩,
+   phTimeoutOf_case2_queues hard s app a hw hb hfind hc hreq⟩
+
+/-! ### no placeholder outlives its application
+
+`CoreInv s` = `CoreWF ∧ Books ∧ Linked ∧ LifeInv` (YkProofs/Core2LifeRun.lean).  `LifeInv.noPhOrphan`: an application that
+has terminated (Completed / Failed) or has left the partition lists no bound placeholder.  It is an invariant of every
+operation of the stepped model: an application terminates or leaves only when its placeholder total is zero (then, the
+books agreeing and sizes being positive, it lists no bound placeholder) or when all its allocations are released at once.
+Side conditions (`RunLifeOK`): `Op.ok2` of every step, a new application is not submitted in a terminated state, the
+placeholder timer announces Failing / Resuming or nothing.  (The monitor clause `C03.I7p` / `C06.placeholder-outlives-
+application` never fired on the real core either; no refutation exists.) -/
+
+theorem no_placeholder_outlives_its_application (s : Core) (ops : List Op) (h : CoreInv s) (hok : RunLifeOK s ops) :
+    ∀ a ∈ (run s ops).apps, (a.live = false ∨ terminated a.state = true) → ∀ i ∈ a.items, i.bound = true → i.ph = false :=
+  (reachable_life s ops h hok).life.noPhOrphan
+
+/-- one step: the invariant is preserved by every operation -/
+theorem no_placeholder_outlives_step (s : Core) (op : Op) (hw : CoreWF s) (hb : Books s) (hk : Linked s) (hl : LifeInv s)
+    (hok : op.ok2 s) (hol : op.okLife) : LifeInv (op.apply s) :=
+  step_life s op hw hb hk hl hok hol
+
+/-- non-vacuity: the example histories from the empty partition (YkProofs/Core2Example*.lean; swap on the same node, on
+    another node, node removed while the swap is in flight) meet the side conditions; in `exOps` the placeholder `p1`
+    is bound after the 4th step and the application is gone at the end -/
+example : CoreInv Example.ex0 ∧ RunLifeOK Example.ex0 Example.exOps ∧ RunLifeOK Example.ex0 Example.exOps2 ∧
+    RunLifeOK Example.ex0 Example.exOps3 ∧ (Example.s4.nodes.map (·.allocated)) = [[("cpu", 4)]] :=
+  ⟨Example.coreInv_ex0, Example.exOps_life, Example.exOps2_life, Example.exOps3_life, Example.s4_node.1⟩
+
+/-- non-vacuity of the timeout theorems: the example application right after it was added (state New … Accepted after
+    its first ask) -/
+example : ∃ a, Example.s3.findApp "app" = some a ∧ a.state = "Accepted" ∧ LifeE.phCase1 a = false ∧
+    a.items.any (·.inReq) = true := by decide +kernel
 
 end Yk.C06
